@@ -33,6 +33,8 @@ def run(rep):
                                              if r["model"] == "MC_DWT1_Ops")
     dwtchecks.integer_round_trips(rep, fnd, "C02", rep.tier)
     dwtchecks.numeric_round_trips(rep, fnd, "C02", rep.tier)
+    from .. import scalechecks
+    scalechecks.dwt_inverse(rep, "C02", rep.tier, roundtrip=True)          # large inputs (size thresholds)
     rep.assumptions += ["formal PR is proved within the PR bounds of coverage.tlc_runs (PRMaxN, PRMaxL)",
                         "the tap-value premise is checked numerically per wavelet (residual recorded)"]
 
